@@ -1159,8 +1159,18 @@ def _stdin_fix(
 
     exit_code = _handle_unparsable(fix_even_unparsable, exit_code, result, formatter)
 
-    if result.num_violations(types=SQLLintError, fixable=True) > 0:
-        stdout = result.paths[0].files[0].fix_string()[0]
+    # NOTE: Include violations which are configured as warnings, as
+    # `LintedFile.persist_tree` does when fixing a file by path. Otherwise
+    # `fix -` would echo the input where `fix <path>` rewrites the file.
+    files = result.paths[0].files if result.paths else []
+    if (
+        files
+        and files[0].num_violations(
+            types=SQLLintError, fixable=True, filter_warning=False
+        )
+        > 0
+    ):
+        stdout = files[0].fix_string()[0]
     else:
         stdout = stdin
 
